@@ -161,3 +161,10 @@ pub struct Spec {
     #[serde(default)]
     pub lower_term_reappend: bool,
 }
+
+impl Spec {
+    /// Faults other than the transparent kinds (short transfers, EINTR), i.e. real errors.
+    pub fn has_real_faults(&self) -> bool {
+        self.faults.iter().any(|f| !matches!(f.effect, crate::core::Effect::Short | crate::core::Effect::Errno(libc::EINTR)))
+    }
+}
